@@ -108,7 +108,8 @@ impl Monitor for C07 {
         for m in &obs.ix.metas {
             let (Some(pre_d), Some(post_d)) = (obs.pre.data(&m.key), w.bank.data(&m.key)) else { continue };
             let (Some(pp), Some(np)) = (codec::Position::decode(pre_d), codec::Position::decode(post_d)) else { continue };
-            if pre_d == post_d {
+            // (a fee-and-reward update that succeeds is a settlement even when it leaves the position's bytes alone)
+            if pre_d == post_d && !(obs.ix.name == "update_fees_and_rewards" && m.key == obs.ix.key("position")) {
                 continue;
             }
             let is_collect = obs.ix.name == "collect_fees" || obs.ix.name == "collect_fees_v2";
